@@ -444,9 +444,37 @@ class World:
         await self.dm.delete_prev_cancelled_job_group_cancellable_resources_records(self.gdb)
         return 0
 
-    async def op_compact(self):
-        await self.dm.compact_agg_billing_project_users_table(self.app, self.gdb)
-        await self.dm.compact_agg_billing_project_users_by_date_table(self.app, self.gdb)
+    async def op_compact(self, ts=None, date=None, *atts):
+        if ts is None:
+            await self.dm.compact_agg_billing_project_users_table(self.app, self.gdb)
+            await self.dm.compact_agg_billing_project_users_by_date_table(self.app, self.gdb)
+            return 0
+        # the compaction loops run while ANOTHER connection commits billing updates for `atts`: one at each of the 2nd, 3rd and 4th
+        # transaction the loops begin (timestamps ts+1, ts+2, ts+3: "after one transaction of the loop, before its next"), and a last
+        # one with ts+3 when the loops are done, so that the attempts end with rollup_time = ts+3 however many transactions there were
+        self.date = int(date)
+        where, args = [], []
+        for t in atts:
+            b, j, a = t.split(':')
+            where.append('(batch_id = %s AND job_id = %s AND attempt_id = %s)')
+            args += [int(b), int(j), f'att{a}']
+        sql = 'UPDATE attempts SET rollup_time = %s WHERE ' + ' OR '.join(where)      # the statement of driver/main.py billing_update_1
+        pool = self.gdb.pool
+        n = [0]
+
+        def other_connection(i, stmt):
+            if stmt == 'BEGIN' or stmt.lstrip().upper().startswith('START TRANSACTION'):
+                n[0] += 1
+                if 2 <= n[0] <= 4:
+                    self.db.execute(sql, [int(ts) + n[0] - 1] + args)
+            return None
+        pool.faults = other_connection
+        try:
+            await self.dm.compact_agg_billing_project_users_table(self.app, self.gdb)
+            await self.dm.compact_agg_billing_project_users_by_date_table(self.app, self.gdb)
+        finally:
+            pool.faults = None
+        self.db.execute(sql, [int(ts) + 3] + args)
         return 0
 
     # -- dump ----------------------------------------------------------------------------------------------
